@@ -69,11 +69,11 @@ _QUICK = [dict(cfg="MCConsistSplit_quickA.cfg", emit=True, max_emit=5000, worker
           dict(cfg="MCConsistSplit_quickB.cfg", emit=True, max_emit=5000, workers=8, timeout=300)]
 # allA = 1-2 units with every start class, every behaviour emitted; thoroughA: 3 units, 3 steps; thoroughB: 4 units,
 # 2 steps; sim: 5-8 units by -simulate (one worker and -seed VERIF_SEED: the sample is reproducible).
-_THOROUGH = [dict(cfg="MCConsistSplit_allA.cfg", emit=True, max_emit=40000, workers=8, timeout=900),
-             dict(cfg="MCConsistSplit_thoroughA.cfg", emit=True, max_emit=30000, workers=12, timeout=1800),
-             dict(cfg="MCConsistSplit_thoroughB.cfg", emit=True, max_emit=30000, workers=12, timeout=2400),
-             dict(cfg="MCConsistSplit_sim.cfg", emit=True, max_emit=20000, workers=1, timeout=900,
-                  simulate="num=20000", coverage=False)]
+_THOROUGH = [dict(cfg="MCConsistSplit_allA.cfg", emit=True, max_emit=30000, workers=8, timeout=900),
+             dict(cfg="MCConsistSplit_thoroughA.cfg", emit=True, max_emit=20000, workers=8, timeout=1800),
+             dict(cfg="MCConsistSplit_thoroughB.cfg", emit=True, max_emit=20000, workers=8, timeout=2400),
+             dict(cfg="MCConsistSplit_sim.cfg", emit=True, max_emit=15000, workers=1, timeout=900,
+                  simulate="num=15000", coverage=False)]
 
 
 def _vacuity(r):
@@ -94,7 +94,7 @@ GROUP = dict(
     name="consist", bin="avh_consist",
     model_spec="MCConsistSplit.tla", trace_spec="ConsistSplitTrace.tla", trace_cfg="ConsistSplitTrace.cfg",
     models={"quick": _QUICK, "thorough": _THOROUGH},
-    gen_n={"quick": 1500, "thorough": 20000},
+    gen_n={"quick": 1500, "thorough": 10000},
     per_case_ms=20000,
     nontrivial=nontrivial,
     rule=RULE,
